@@ -57,37 +57,41 @@ def garbage(rng_seed, n):
     return "".join(rng.choice("()[]<>;:,.|+-*&{}1 ax") for _ in range(8 * n))
 
 
-GROWTH_N = {"quick": 250, "thorough": 2000}
+GROWTH_N = {"quick": 400, "thorough": 2000}
 
 
-def measure_growth(b, tier):
+def measure_growth(b, tier, only=None):
     """run every family at sizes n and 4n (own probe process per family, 60 s watchdog);
-    returns {family: (n, ms_n, ms_4n, verdicts)}"""
+    returns {family: (n, (us, bytes, verdict) at n, (us, bytes, verdict) at 4n, len(text 4n))}"""
     n = GROWTH_N[tier if tier in GROWTH_N else "quick"]
     res = {}
     for fam, g in FAMILIES.items():
+        if only is not None and fam not in only:
+            continue
         cases = [("%s:%d" % (fam, n), "growth", g(n)), ("%s:%d" % (fam, 4 * n), "growth", g(4 * n))]
         out = S.run_tool(b.probe, "parsetime", cases, timeout=200)
         row = []
         for i, _, _ in cases:
             o = out.get(i, "MISSING").split("\t")
-            if len(o) == 2 and o[0].isdigit():
-                row.append((int(o[0]), o[1]))
+            if len(o) == 3 and o[0].isdigit() and o[1].isdigit():
+                row.append((int(o[0]), int(o[1]), o[2]))
             else:
-                row.append((None, o[0]))
+                row.append((None, None, o[0]))
         res[fam] = (n, row[0], row[1], len(cases[1][2]))
     return res
 
 
 def superlinear(row):
-    """(n, (us_n, v), (us_4n, v), bytes) -> reason or None.  Linear growth is a factor 4; a factor
-    above 8 on a measurement above 100 ms (minimum of three runs) is reported: a ratio is robust
-    against a uniformly slow machine, the minimum against spikes."""
-    n, (m1, v1), (m4, v4), _ = row
-    if m1 is None or m4 is None:
+    """Linear growth is a factor 4 from n to 4n.  Criterion (deterministic, independent of the load
+    of the machine): the number of BYTES ALLOCATED by one ParseString call grows by more than a
+    factor 8 and exceeds 8 MB.  Wall time is recorded too; no result within the 60 s watchdog is
+    reported as well.  (A superlinear cost that allocates nothing would show only as a hang.)"""
+    n, (t1, a1, v1), (t4, a4, v4), _ = row
+    if a1 is None or a4 is None:
         return "no result within the 60 s watchdog (%s / %s)" % (v1, v4)
-    if m4 > 100000 and m4 > 8 * max(m1, 3000):
-        return "time grows by a factor %.1f when the input grows by 4 (%.1f ms -> %.1f ms)" % (m4 / max(m1, 1), m1 / 1000, m4 / 1000)
+    if a4 > 8000000 and a4 > 8 * max(a1, 100000):
+        return ("memory allocated by one ParseString call grows by a factor %.1f when the input grows by 4 "
+                "(%.1f MB -> %.1f MB; wall %.1f ms -> %.1f ms)" % (a4 / max(a1, 1), a1 / 1e6, a4 / 1e6, t1 / 1000, t4 / 1000))
     return None
 
 
@@ -136,7 +140,7 @@ def run(b, ps, tier, seed):
             "ParseString is not prompt on the construct family '%s': %s" % (fam, why),
             {"property": PROP, "kind": "superlinear-parse-time", "family": fam, "n": row[0] * 4,
              "input_hex": text.encode("latin1", "replace").hex() if len(text) < 400000 else "", "input_text": text[:300],
-             "measured_us": {"n": row[1][0], "4n": row[2][0]}, "replay_cmd": "bin/check C11 --replay <this file>"}))
+             "measured": {"n": list(row[1]), "4n": list(row[2])}, "replay_cmd": "bin/check C11 --replay <this file>"}))
     if f19:
         known_lines.append(kf["F19"].get("line", "known: F19") + " [measured now: " + "; ".join(f19) + "]")
     # model side: by theorem the model never hangs; an EXN / HANG of the model means the model or its
@@ -150,14 +154,15 @@ def run(b, ps, tier, seed):
                 "seeded single/double edits of them (token insert/delete/duplicate/swap, illegal characters, NUL, "
                 "truncation, comment openers/closers, byte replacement), random byte strings, token soup, one 32 kB garbage text, "
                 "and %d growth families (one construct repeated n and 4n times, n = %d: declarations, name lists, choice options, "
-                "branches, nesting, sequences, long labels/comments/whitespace, unterminated comment, illegal tail) timed (minimum of 3 runs) under a 60 s watchdog; "
+                "branches, nesting, sequences, long labels/comments/whitespace, unterminated comment, illegal tail) measured (bytes allocated by the call - deterministic - and wall time) under a 60 s watchdog; "
                 "non-trivial = longer than 8 bytes, distinct by content" % (len(FAMILIES), GROWTH_N[tier if tier in GROWTH_N else "quick"]),
         "samples": [{"id": i, "kind": k, "text": t[:120], "impl": impl.get(i, "")[:60]} for i, k, t in cases[400:406]],
         "input_kinds": kinds,
         "distinct_texts": distinct,
         "impl_outcomes": {c: sum(1 for i, _, _ in cases if outcome_class(impl.get(i, "MISSING")) == c) for c in {outcome_class(v) for v in impl.values()}} if impl else {},
         "model_nonresults": model_bad[:5],
-        "growth_us": {fam: {"n": row[0], "us_n": row[1][0], "us_4n": row[2][0], "bytes_4n": row[3], "verdict": row[2][1],
+        "growth": {fam: {"n": row[0], "wall_us_n": row[1][0], "wall_us_4n": row[2][0], "alloc_bytes_n": row[1][1], "alloc_bytes_4n": row[2][1],
+                         "text_bytes_4n": row[3], "verdict": row[2][2],
                             "superlinear": superlinear(row)} for fam, row in sorted(growth.items())},
         "suite_wall_s": round(dt, 1),
     }
@@ -169,7 +174,7 @@ def run(b, ps, tier, seed):
     return {"violations": violations, "known": known_lines, "coverage": cov,
             "assumptions": ["bufio/utf8 decoding is outside the model (bytes >= 0x80 are one class)",
                             "the theorem bounds steps (scanner reads, driver iterations), not time: the cost of one step of the Go code (semantic actions) is measured, "
-                            "by timing growth families at n and 4n (factor > 8 above 0.1 s = superlinear) and a 5 s watchdog per stream input",
+                            "through growth families at n and 4n: bytes allocated per ParseString call (deterministic; factor > 8 = superlinear), a 60 s watchdog, and a 5 s watchdog per stream input",
                             "the error-recovery loop of the goyacc driver is modelled as abort (no state shifts `error`: checked on the regenerated tables)"],
             "trusted_extra": ["translator translate/lrtables.py (syntactic: array literals and constants of parser.y.go)",
                               "translator `probe scantables` (go/ast keyword literals + behavioural dump of the 256 byte classes)",
@@ -181,13 +186,14 @@ def replay(b, path):
     if r.get("kind") == "superlinear-parse-time":
         fam, n = r["family"], r["n"] // 4
         cases = [("a", "", FAMILIES[fam](n)), ("b", "", FAMILIES[fam](4 * n))]
-        out = S.run_tool(b.probe, "parsetime", cases, timeout=200)
-        row = []
-        for i in ("a", "b"):
-            o = out.get(i, "MISSING").split("\t")
-            row.append((int(o[0]), o[1]) if len(o) == 2 and o[0].isdigit() else (None, o[0]))
-        why = superlinear((n, row[0], row[1], 0))
-        print("family %s: n=%d -> %s us, 4n -> %s us: %s" % (fam, n, row[0][0], row[1][0], why or "linear"))
+        class _B:
+            probe = b.probe
+        saved = dict(GROWTH_N)
+        GROWTH_N["quick"] = n
+        row = measure_growth(_B, "quick", only=[fam])[fam]
+        GROWTH_N.update(saved)
+        why = superlinear(row)
+        print("family %s: n=%d -> %s, 4n -> %s: %s" % (fam, n, row[1], row[2], why or "linear"))
         return 1 if why else 0
     if "input_hex" not in r:
         print("no concrete input in this replay file:", r.get("no_longer_checks"))
